@@ -187,6 +187,9 @@ def extract(config, release=False, repo=None, quiet=True, _retry=0):
     facts, renamed = fold_renames(facts, config)
     if renamed:
         meta["renamed_items"] = renamed
+    facts, swapped = fold_entry_wrappers(facts, config)
+    if swapped:
+        meta["entry_wrappers"] = swapped
     facts, plain = fold_plain_structs(facts)
     if plain:
         meta["structs_as_tuples"] = plain
@@ -374,6 +377,79 @@ def fold_renames(facts, config):
         if not changed:
             break
     return facts, renamed
+
+
+def fold_entry_wrappers(facts, config):
+    """`fn recv(fd, mode)` has become `fn recv(fd, mode) { let mut scratch = ..; recv_with(fd, mode, &mut scratch) }`, with the former body in the new
+    `recv_with`, so that another caller can hand in its own scratch value.  The reference function is then still the body that does the work, under a
+    new name and with parameters added: the names are exchanged in the facts (the new function gets the reference name; the thin wrapper becomes
+    `<name>__entry`, an ordinary new helper that is looked through at its call sites).  Only when the wrapper does nothing but prepare arguments:
+    one call to one new function that returns the wrapper's own return type, takes the wrapper's parameter types in order plus more, and has another caller."""
+    try:
+        inv = json.load(open(os.path.join(VERIF, "tables", "known_fns.json"))).get("by_config", {}).get(config)
+    except OSError:
+        inv = None
+    if not inv:
+        return facts, []
+    done = []
+    for _round in range(3):
+        byp = {f["path"]: f for f in facts["fns"]}
+        plain = lambda n: re.sub(r"::<[^:]*>", "", n or "")
+        names = {plain(p): p for p in byp}
+        callers = {}
+        for f in facts["fns"]:
+            for blk in f["blocks"]:
+                t = blk["term"]
+                if t["t"] == "call" and not blk["cleanup"]:
+                    n = names.get(plain(t.get("resolved") or t.get("callee")))
+                    if n:
+                        callers.setdefault(n, set()).add(f["path"])
+        pick = None
+        for r in facts["fns"]:
+            if r["path"] not in inv["fns"] or r["kind"] == "Closure" or r["path"].endswith("__entry"):
+                continue
+            live = [b for b in r["blocks"] if not b["cleanup"]]
+            if len(live) > 16:
+                continue
+            new_calls = []
+            for blk in live:
+                t = blk["term"]
+                if t["t"] == "call":
+                    n = names.get(plain(t.get("resolved") or t.get("callee")))
+                    if n and n not in inv["fns"] and byp[n]["kind"] != "Closure" and n != r["path"]:
+                        new_calls.append((n, t))
+            if len(new_calls) != 1:
+                continue
+            gname, t = new_calls[0]
+            g = byp[gname]
+            rsig = [l["t"] for l in r["locals"][:r["argc"] + 1]]
+            gsig = [l["t"] for l in g["locals"][:g["argc"] + 1]]
+            if gsig[0] != rsig[0] or g["argc"] <= r["argc"] or (g.get("parent") or "") != (r.get("parent") or ""):
+                continue
+            # the wrapper's parameter types, in order, among the new function's; what is added must be scratch handed in by reference (`&mut buffer`),
+            # not a mode or flag chosen by the wrapper (`recv_with(Wait::Forever)` is a dispatcher shared by several entry points, looked through as usual)
+            extra, want = [], list(rsig[1:])
+            for ty in gsig[1:]:
+                if want and ty == want[0]:
+                    want.pop(0)
+                else:
+                    extra.append(ty)
+            if want or not extra or not all(ty.startswith("&mut ") for ty in extra):
+                continue
+            if t["dest"].get("p") or len(callers.get(gname, ())) < 2:
+                continue          # a helper with this one caller is simply looked through
+            pick = (r["path"], gname)
+            break
+        if not pick:
+            break
+        rp, gp = pick
+        text = json.dumps(facts)
+        text = _path_sub(text, rp, "\x00ENTRY\x00")
+        text = _path_sub(text, gp, rp)
+        text = text.replace("\x00ENTRY\x00", rp + "__entry")
+        facts = json.loads(text)
+        done.append("%s is now the entry wrapper of %s" % (rp, gp))
+    return facts, done
 
 
 def fold_plain_structs(facts):
